@@ -291,4 +291,64 @@ func init() {
 			Old: "\t\t\"self\": obj.Object,\n",
 			New: "\t\t\"self\": obj.Object,\n\t\t\"kind\": obj.GetKind(),\n"},
 	)
+	// ---- round T: data-handling rewrites and a shared (value, found) lookup helper
+	const tMake = "\tprobeList := make(probing.And, len(packageProbes))\n"
+	const tStore = "\t\tprobeList[i] = probe\n"
+	const tKindSel = "\t\tprobe = &probing.GroupKindSelector{\n\t\t\tProber: probe,\n\t\t\tGroupKind: schema.GroupKind{\n\t\t\t\tGroup: selector.Kind.Group,\n\t\t\t\tKind:  selector.Kind.Kind,\n\t\t\t},\n\t\t}\n"
+	const tKindLocal = "\t\tgk := schema.GroupKind{\n\t\t\tGroup: selector.Kind.Group,\n\t\t\tKind:  selector.Kind.Kind,\n\t\t}\n"
+	const tOgImport = "\t\"k8s.io/apimachinery/pkg/apis/meta/v1/unstructured\"\n"
+	const tOgIfLookup = "\tif observedGeneration, found := c17tLookupGeneration(\n\t\tunstr.Object, \"status\", \"observedGeneration\",\n\t); found && observedGeneration != obj.GetGeneration() {\n\t\treturn false, []string{\".status outdated\"}\n\t}"
+	const tCndGenLookup = "\t\t// Check the condition's observed generation, if set\n\t\tif observedGeneration, found := c17tLookupGeneration(\n\t\t\tcond, \"observedGeneration\",\n\t\t); found && observedGeneration != obj.GetGeneration() {\n\t\t\treturn false, \"outdated\"\n\t\t}\n"
+	const tProbeTail = "\tif success {\n\t\treturn success, nil\n\t}\n\treturn success, []string{msg}\n}\n"
+	tLookup := func(onMissing, onFound string) string {
+		return tProbeTail + "\nfunc c17tLookupGeneration(content map[string]any, fields ...string) (observedGeneration int64, found bool) {\n" +
+			"\tobservedGeneration, found, err := unstructured.NestedInt64(content, fields...)\n\tif err != nil {\n\t\treturn 0, false\n\t}\n" +
+			"\tif !found {\n\t\treturn 0, " + onMissing + "\n\t}\n\treturn observedGeneration, " + onFound + "\n}\n"
+	}
+	tLookupEdits := func(onMissing, onFound string) []Edit {
+		return []Edit{{File: og, Old: tOgImport, New: ""}, {File: cnd, Old: cndGen, New: tCndGenLookup}, {File: prb, Old: tProbeTail, New: tLookup(onMissing, onFound)}}
+	}
+	addMutants(
+		Mutant{Prop: "C17", Name: "r3-benign-parse-collects-by-append", File: prs, Benign: true,
+			Old:  tMake,
+			New:  "\tprobeList := make(probing.And, 0, len(packageProbes))\n",
+			More: []Edit{{File: prs, Old: tStore, New: "\t\tprobeList = append(probeList, probe)\n"}}},
+		Mutant{Prop: "C17", Name: "r3-parse-appends-to-prefilled-list", File: prs,
+			Old:    tStore,
+			New:    "\t\tprobeList = append(probeList, probe)\n",
+			Expect: []string{"C17.R3@internal/probing.Parse"}, Why: "the list starts with len(entries) nil probers: probing panics"},
+		Mutant{Prop: "C17", Name: "r3-parse-append-skips-first-entries", File: prs,
+			Old:    tMake,
+			New:    "\tprobeList := make(probing.And, 0, len(packageProbes))\n",
+			More:   []Edit{{File: prs, Old: tStore, New: "\t\tif len(pkgProbe.Probes) == 0 {\n\t\t\tcontinue\n\t\t}\n\t\tprobeList = append(probeList, probe)\n"}},
+			Expect: []string{"C17.R3@internal/probing.Parse"}},
+		Mutant{Prop: "C17", Name: "r3-parse-append-restarts-list", File: prs,
+			Old:    tMake,
+			New:    "\tprobeList := make(probing.And, 0, len(packageProbes))\n",
+			More:   []Edit{{File: prs, Old: tStore, New: "\t\tprobeList = append(probeList[:0], probe)\n"}},
+			Expect: []string{"C17.R3@internal/probing.Parse"}, Why: "only the last entry's prober survives"},
+		Mutant{Prop: "C17", Name: "r3-benign-kind-selector-groupkind-local", File: prs, Benign: true,
+			Old: tKindSel,
+			New: tKindLocal + "\t\tprobe = &probing.GroupKindSelector{Prober: probe, GroupKind: gk}\n"},
+		Mutant{Prop: "C17", Name: "r3-kind-selector-groupkind-local-group-cleared", File: prs,
+			Old:    tKindSel,
+			New:    tKindLocal + "\t\tgk.Group = \"\"\n\t\tprobe = &probing.GroupKindSelector{Prober: probe, GroupKind: gk}\n",
+			Expect: []string{"C17.R3@internal/probing.ParseSelector"}},
+		Mutant{Prop: "C17", Name: "r3-kind-selector-groupkind-local-kind-as-group", File: prs,
+			Old:    tKindSel,
+			New:    "\t\tvar gk schema.GroupKind\n\t\tgk.Group = selector.Kind.Kind\n\t\tgk.Kind = selector.Kind.Kind\n\t\tprobe = &probing.GroupKindSelector{Prober: probe, GroupKind: gk}\n",
+			Expect: []string{"C17.R3@internal/probing.ParseSelector"}},
+		Mutant{Prop: "C17", Name: "r3-benign-shared-generation-lookup-helper", File: og, Benign: true,
+			Old: ogIf, New: tOgIfLookup, More: tLookupEdits("false", "true")},
+		Mutant{Prop: "C17", Name: "r3-shared-lookup-reports-declared-as-absent", File: og,
+			Old: ogIf, New: tOgIfLookup, More: tLookupEdits("false", "false"),
+			Expect: []string{"C17.R3@", "C17.R4@"}, Why: "a declared observedGeneration is never compared: stale status passes"},
+		Mutant{Prop: "C17", Name: "r3-shared-lookup-reports-missing-as-found", File: og,
+			Old: ogIf, New: tOgIfLookup, More: tLookupEdits("true", "true"),
+			Expect: []string{"C17.R3@"}, Why: "objects without observedGeneration are compared with 0 and fail"},
+		Mutant{Prop: "C17", Name: "r4-shared-lookup-caller-compares-less-than", File: og,
+			Old: ogIf, New: tOgIfLookup,
+			More: []Edit{{File: og, Old: tOgImport, New: ""}, {File: cnd, Old: cndGen, New: strings.Replace(tCndGenLookup, "observedGeneration != obj", "observedGeneration < obj", 1)}, {File: prb, Old: tProbeTail, New: tLookup("false", "true")}},
+			Expect: []string{"C17.R4@"}},
+	)
 }
